@@ -4,7 +4,7 @@ A package forest with look-alike names (foo, foobar, foo_bar, fo, foo.bar, foo.b
 modules importing each other absolutely, relatively and from inside a function body) lives in a
 temporary directory.  Hypothesis draws histories of install(names, checker) [with-block or handle],
 uninstall / leave block (any order, several hooks active at once), import m, call-a-function-that-
-imports, and the pytest option.  Model: a module is instrumented iff, at its FIRST import, an active
+imports, the pytest option, and (in fresh IPython processes) the %jaxtyping.typechecker magic.  Model: a module is instrumented iff, at its FIRST import, an active
 hook has a name n with m == n or m.startswith(n + '.'), and then by the checker of the most recently
 installed such hook.  Observation: spy typecheckers record which (module, qualname) they were asked to
 wrap; instrumented modules carry the inserted 'import jaxtyping'; ill-typed calls raise iff a checking
@@ -39,7 +39,7 @@ RULE = (
 )
 ASSUMPTIONS = [
     "bytecode writing is off (cached bytecode is C18's subject); forest modules are purged from sys.modules between cases only",
-    "the IPython magic is covered by C10 (same transformer) and not driven here",
+    "the IPython magic is driven in fresh IPython subprocesses (3 histories on two shards in the quick tier, 6 per shard in the thorough tier)",
 ]
 
 FOREST = {
@@ -291,9 +291,24 @@ def run(ctx):
 
     ctx.hyp(histories, max_examples=ctx.n(1500, 8000))
 
+    # the IPython magic, each history in a fresh IPython process (vf/checks/c11_ipython.py)
+    from vf.checks.c11_ipython import check_ipython_history, ipy_history
+
+    @given(ipy_history())
+    def ipython(ops):
+        check_ipython_history(ctx, ops)
+
+    if ctx.shard < 2 or ctx.tier == "thorough":
+        ctx.hyp(ipython, max_examples=ctx.n(3, 6), shrink=False)
+
 
 def replay(case, clause, ctx):
     try:
+        if "ipython" in case:
+            from vf.checks.c11_ipython import check_ipython_history
+
+            check_ipython_history(ctx, case["ipython"])
+            return None
         check_history(ctx, [list(o) for o in case["ops"]])
     except Violation as v:
         return str(v)
